@@ -62,6 +62,10 @@ CHECKS = {
    text="Local proof + channel axioms + algebra lemmas: each fork.Fold worker folds what it received starting from Empty() and hands over exactly one partial result (slot token on the capacity-par channel); the collector, after Wait, receives exactly par partial results and combines them starting from Empty() (loop invariant), sends one value and closes both channels. That the combination of partial folds of any distribution of the elements equals the sequential left fold for a commutative monoid is proved as SMT lemmas by structural induction (fold of concatenation, invariance under chunk order and adjacent swaps).",
    note=PIPE_NOTE + " A genuine defect was found and repaired (collector started from the zero value instead of Empty()), see KNOWN_FINDINGS.json.",
    tech="contract-based deductive verification: per-goroutine fold invariants, slot tokens, inductive algebra lemmas (cvc5 --quant-ind)", ref="6/C10"),
+ "C08": dict(
+   text="Proof of the queue (heap model): newq, enq, deq, head, emit are verified against ghost fields (node array, offset, length, value list) tied to the linked structure by a quantified representation invariant (link order, distinctness, allocation, not pooled, cell contents = abstract list): enq appends at the back, deq removes the front, head/emit agree with emptiness. Local proof + channel axioms of the pump: loop invariant rcvd(in) = sent(eg) followed by the queue contents, every exit flushes the queue, drains the send side, closes the receive side once and never closes a channel already observed closed; every iteration offers the receive arm and observes cancellation. Two genuine defects were found by these obligations and repaired (see KNOWN_FINDINGS.json).",
+   note=PIPE_NOTE + " sync.Pool is modelled by its contract (Get returns a new node or a pooled one that is not in use). 'A send never waits' is a liveness statement and is not decided; the flush sends after cancel are blocking by design (delivery) and exempt from the slot-token condition. A close by the sender racing with the pump's own close on cancel is outside the goroutine-local model.",
+   tech="contract-based deductive verification: ghost fields + quantified representation invariant over a heap model; goroutine-local trace invariant for the pump", ref="6/C08"),
 }
 
 NA_REASON = "check not built yet in this session (engine under construction; build order in DESIGN.md section 12)"
